@@ -457,8 +457,13 @@ class Evaluator(object):
 
     def op_binop(self, op, a, b):
         a, b = self.ev(a), self.ev(b)
+        if isinstance(a, dict):
+            a = frozenset(a)
+        if isinstance(b, dict):
+            b = frozenset(b)
         return {'+': lambda: a + b, '-': lambda: a - b,
-                '*': lambda: a * b}[op.v]()
+                '*': lambda: a * b, '&': lambda: a & b,
+                '|': lambda: a | b, '^': lambda: a ^ b}[op.v]()
 
     def op_sum(self, a):
         return sum(self.ev(a))
